@@ -14,7 +14,15 @@ RdErr(R) ==
   ELSE LET T == Tables(R.src) IN
        IF R.n \notin DOMAIN T THEN "TableDoesNotExist" ELSE MatchErr(T, R.n, R.kind, R.kt, R.vt, TRUE)
 
+\* holding an iterator / the values of a multimap key opens the table first, like any read through a read transaction
+HoldErr(R, kind) ==
+  IF ~SrcOk(R.src) THEN ""
+  ELSE LET T == Tables(R.src) IN
+       IF R.n \notin DOMAIN T THEN "TableDoesNotExist" ELSE MatchErr(T, R.n, kind, R.kt, R.vt, TRUE)
+
 Do(R) ==
+  \/ /\ R.e = "hold" /\ HoldErr(R, "t") # "" /\ IsE(R.r, HoldErr(R, "t")) /\ UNCHANGED kvVars
+  \/ /\ R.e = "mhold" /\ HoldErr(R, "m") # "" /\ IsE(R.r, HoldErr(R, "m")) /\ UNCHANGED kvVars
   \/ /\ R.e \in {"get", "len", "edge", "range", "mget", "mrange", "rcursor"} /\ RdErr(R) # ""
      /\ IsE(R.r, RdErr(R)) /\ UNCHANGED kvVars
   \/ R.e = "bw"      /\ BeginWrite(R.r)
